@@ -1,4 +1,5 @@
 import M3d.Lemmas.CollideWrap
+import M3d.Lemmas.CollideBall
 import Mathlib.Algebra.Order.Field.Rat
 /-!
 # C07 — Colliders report consistent ray and ball collisions
@@ -291,6 +292,27 @@ theorem ball_touches_iff_sphere {sqrtF : K → K} (hs : SqrtOK sqrtF) (center : 
     |R - c.dist sqrtF center| ≤ r ↔ ∃ p : V3 K, p.distSq center = R * R ∧ p.distSq c ≤ r * r :=
   sphere_ball_iff hs center R c r hR hr
 
+/-- **`ball_touches_iff`, `Triangle.SphereCollision`** — the vertex / edge / face case analysis *is* the
+squared distance to the triangle: the sqrt-free predicate `triBallSpec` ("an end point or the foot of the
+perpendicular on an edge is within `q`, or the foot of the perpendicular on the plane has barycentric
+coordinates in range and the plane is within `q`"; `q = r²`) holds iff some point `a + u(b-a) + v(c-a)`,
+`u, v ≥ 0`, `u + v ≤ 1`, of the (non-degenerate) triangle has squared distance `< q` from the centre.  The
+closest-point lemma it rests on (`tri_closest_gram`, `exit_param`) is proved, not assumed.  The Go method
+(`triSphere`, which takes square roots and reuses `rayCollision` along the normal for the face case) is
+compared with `triBallSpec` on every `ballx` case of the correspondence, at `Rat`, and the line is refused
+(`MODEL-NE-SPEC`) if they differ. -/
+theorem ball_touches_iff_triangle (a b c ctr : V3 K) (q : K)
+    (hnd : ((b.sub a).cross (c.sub a)).dot ((b.sub a).cross (c.sub a)) ≠ 0) :
+    triBallSpec a b c ctr q = true ↔
+      ∃ u v, 0 ≤ u ∧ 0 ≤ v ∧ u + v ≤ 1 ∧ (triPoint a b c u v).distSq ctr < q :=
+  triBallSpec_iff a b c ctr q hnd
+
+/-- … and the edge case alone: `segBallSpec` holds iff some point of the segment is within `q`. -/
+theorem ball_touches_iff_segment3d (p1 p2 ctr : V3 K) (q : K) (hne : (p2.sub p1).dot (p2.sub p1) ≠ 0) :
+    segBallSpec p1 p2 ctr q = true ↔
+      ∃ lam, 0 ≤ lam ∧ lam ≤ 1 ∧ (p1.add ((p2.sub p1).scale lam)).distSq ctr < q :=
+  segBallSpec_iff p1 p2 ctr q hne
+
 /-! ## non-vacuity -/
 
 /-- a ray through the unit box: entry 1, exit 2; from inside: exit only -/
@@ -313,5 +335,12 @@ example :
     obsOk 1 1 true (-1 : ℚ) [-1] = false ∧       -- negative parameter
     obsOk 0 0 true (0 : ℚ) [] = false := by      -- first exists although count = 0
   refine ⟨?_, ?_, ?_, ?_, ?_⟩ <;> decide +kernel
+
+/-- the unit right triangle and a ball above its interior / far from it -/
+example :
+    triBallSpec (⟨0, 0, 0⟩ : V3 ℚ) ⟨1, 0, 0⟩ ⟨0, 1, 0⟩ ⟨1/4, 1/4, 1/2⟩ (1/2 * (1/2) + 1/100) = true ∧
+    triBallSpec (⟨0, 0, 0⟩ : V3 ℚ) ⟨1, 0, 0⟩ ⟨0, 1, 0⟩ ⟨1/4, 1/4, 1/2⟩ (1/2 * (1/2)) = false ∧
+    triBallSpec (⟨0, 0, 0⟩ : V3 ℚ) ⟨1, 0, 0⟩ ⟨0, 1, 0⟩ ⟨2, 2, 0⟩ 1 = false := by
+  refine ⟨?_, ?_, ?_⟩ <;> decide +kernel
 
 end M3d.C07
